@@ -19,11 +19,12 @@ What is proved here
   hull ⊆ input; consecutive triples turn strictly left (exact cross product), hence adjacent
   hull points are distinct; the hull starts with the first sorted point, which is the
   `min_by` point whenever that point's key sorts first.
-* **T4** (`min_area_rect`): the projection fold bounds every hull point.
+* **T4** (`min_area_rect`): only the `min`/`max` fold steps (`optMin_le`, `optMax_ge`); that the
+  rectangle contains every point is checked by the harness oracle (f32 geometry, tolerance).
 * **S3** containment / global convexity is *not* proved for all inputs: it is stated
-  (`HullContains`) and checked by kernel evaluation for all point lists of length ≤ 4 on a
-  3×3 grid (`c35_hull_contains_bounded`, a bounded statement), and by the exact-arithmetic
-  oracle of the harness on every run of the real code.
+  (`hullContainsCheck`) and checked by kernel evaluation on a small finite scope
+  (`RtenVerif.Props.C35Bounded`, a bounded statement), and by the exact-arithmetic oracle of
+  the harness on every run of the real code (incl. all lists of ≤ 4 points of a 3×3 grid).
 -/
 namespace RtenVerif.Poly
 
@@ -229,7 +230,10 @@ theorem c35_hull_adjacent_distinct (pt : α → Pt) (le : α → α → Bool) (x
   have := c35_hull_turns pt le xs pre post a b c hh
   constructor
   · rintro rfl; simp [cross] at this
-  · rintro rfl; simp [cross] at this
+  · rintro rfl
+    simp only [cross] at this
+    rw [Int.mul_comm (b.2 - a.2)] at this
+    omega
 
 /-- **C35.T2d** The hull has no more points than the input has, counted with multiplicity:
 it is a subsequence of the sorted, de-duplicated point list. -/
@@ -334,8 +338,28 @@ theorem c35_hull_starts_min (pt : α → Pt) (le : α → α → Bool) (xs : Lis
   obtain ⟨z, hz, hzm⟩ := isort_head_min pt le m xs htot hfirst ⟨x, hx, hxm⟩
   rw [hz]; simp [hzm]
 
-/-- The exact comparator meets the hypotheses of T2g on a concrete input, and the hull of a
-square with an interior point, a duplicate and collinear edge points is the four corners. -/
+/-- **C35.T2h** `convex_hull` (the code's own comparator): the hull starts at the `min_by`
+point, for every input. -/
+theorem c35_hullExact_starts_min (pts : List Pt) (m : Pt) (hm : minPoint pts = some m) :
+    (hullExact pts).head? = some m := by
+  unfold hullExact
+  rw [hm]
+  refine c35_hull_starts_min id (exactLe m) pts m (by simpa using hm) ?_ ?_
+  · intro x _ y _
+    simp only [exactLe]
+    have hanti : cross m y x = -(cross m x y) := by simp only [cross]; grind
+    by_cases hx : x = m <;> by_cases hy : y = m <;> simp [hx, hy]
+    by_cases h1 : cross m x y > 0
+    · simp [h1]
+    · by_cases h2 : cross m x y < 0
+      · right; simp [hanti]; omega
+      · have h0 : cross m x y = 0 := by omega
+        simp [hanti, h0]; omega
+  · intro x _ y _ hx hy
+    simp only [id] at hx hy
+    simp [exactLe, hx, hy]
+
+/-- The hull of a square with an interior point, a duplicate and collinear edge points is the four corners. -/
 example :
     hullExact [(0, 0), (2, 0), (4, 0), (4, 4), (0, 4), (2, 2), (4, 4), (2, 4)] =
       [(0, 4), (0, 0), (4, 0), (4, 4)] := by decide
